@@ -23,12 +23,13 @@ type Invalidator struct {
 
 // Invalidate triggers cache expiration.
 func (i *Invalidator) Invalidate(ctx context.Context) error {
+	i.Lock()
+	defer i.Unlock()
+
+	// Callbacks can be appended under the lock while Invalidator is in use.
 	if len(i.Callbacks) == 0 {
 		return ErrNothingToInvalidate
 	}
-
-	i.Lock()
-	defer i.Unlock()
 
 	if i.SkipInterval == 0 {
 		i.SkipInterval = 15 * time.Second
